@@ -122,8 +122,10 @@ def verdict(P, J, run, strict_instances=True, tol=1e-9):
         v.append(("answered-negative-cycle", "answered %s although in every possible world a query/evidence atom "
                   "is undefined in the well-founded model" % ans))
         return v
-    if J.get("undefW", 0) > 0:
-        return v  # some world is not two-valued on the relevant atoms: either outcome acceptable, numbers unspecified
+    if not J["mustAnswer"]:
+        # 'either' class of C02: the full ground dependency graph has a cycle through negation, the program is
+        # outside the C01 fragment; answering is acceptable and no property fixes the numbers.
+        return v
     if J["den"] == 0:
         v.append(("answered-inconsistent-evidence", "answered %s although P(evidence) = 0" % ans))
         return v
@@ -158,3 +160,28 @@ def gen_programs(seed, n, profile="strat", **kw):
         p["id"] = len(out) + 1
         out.append(p)
     return out
+
+
+def triggers(p):
+    """Structural trigger predicates used in violation signatures (known-finding matching)."""
+    t = {}
+    for q in p["queries"]:
+        vs = progs.atom_vars(q)
+        if len(vs) != len(set(vs)):
+            t["repeated_var_query"] = True
+    edges = progs.pred_graph(p)
+    pe = {(a, b, 1) for a, b, s in edges if s == 1}
+    preds = {a for a, _, _ in edges} | {b for _, b, _ in edges}
+    reach = {x: progs._reach(edges, x) for x in preds}
+    # predicates on a cycle that uses only positive edges
+    pure_pos = {a for a, b, _ in pe if a in progs._reach(pe, b)}
+    # predicates on a cycle through at least one negative edge
+    neg_cyc = set()
+    for a, b, s in edges:
+        if s == 0 and a in reach[b]:
+            neg_cyc |= {x for x in preds if x in reach[b] and a in reach[x]}
+    if pure_pos & neg_cyc:
+        t["mixed_cycle"] = True
+    if any(a in reach[b] for a, b, _ in edges):
+        t["cyclic"] = True
+    return t
